@@ -122,6 +122,26 @@ func runC18(p *core.Prog, r *core.Report) {
 	if len(removes) == 0 {
 		r.Fail("C18-R1", "MoveFile removes the source", p.FuncPos(mv), "no os.Remove of the source path found")
 	}
+	// MoveFile itself never destroys what the destination path names: it may be the source under another spelling
+	// (same path, ./-spelling, link); replacing the destination is rename's and CopyFile's business, behind their guards
+	{
+		var bad []string
+		for _, o := range others {
+			n := sx.CalleeName(o)
+			switch n {
+			case "os.Remove", "os.RemoveAll", "os.Truncate", "os.Create", "os.WriteFile", "os.OpenFile":
+				if args := o.Common().Args; len(args) > 0 && fromParam(args[0], mv, 1) {
+					if n == "os.OpenFile" {
+						if _, isT := truncatingOpen(o); !isT {
+							continue
+						}
+					}
+					bad = append(bad, n+"(destination) at "+p.Pos(o.Pos()))
+				}
+			}
+		}
+		r.Check(len(bad) == 0, "C18-R1", "MoveFile does not remove or truncate the destination path itself", p.FuncPos(mv), "only os.Rename and CopyFile touch the destination", strings.Join(bad, ", ")+": when the destination names the source (MoveFile(p, p), p/./x, a link) the only copy of the content is destroyed before it was moved")
+	}
 	for i, rm := range removes {
 		c := fmt.Sprintf("MoveFile: source removal #%d", i)
 		// (a) only after a copy from the same source returned nil
@@ -423,6 +443,101 @@ func runC18(p *core.Prog, r *core.Report) {
 			return true
 		})
 		r.Check(ok, "C18-R3", fmt.Sprintf("CopyFile: error of copy step #%d is returned", i), p.Pos(cc.Pos()), "every return after the copy carries the copy's error result", "a return after "+sx.CalleeName(cc)+" does not carry its error: a failed copy would be reported as success")
+	}
+	// a refused alias is an error: MoveFile removes the source when CopyFile returns nil
+	{
+		okRefuse, nSF := true, 0
+		sx.Instrs(cp, func(in ssa.Instruction) {
+			sf, ok := in.(*ssa.Call)
+			if !ok || sx.CalleeName(sf) != "os.SameFile" || sf.Referrers() == nil {
+				return
+			}
+			for _, u := range *sf.Referrers() {
+				idx := 0
+				var iff *ssa.If
+				switch x := u.(type) {
+				case *ssa.If:
+					iff = x
+				case *ssa.UnOp:
+					if x.Op == token.NOT && x.Referrers() != nil {
+						for _, uu := range *x.Referrers() {
+							if i2, ok := uu.(*ssa.If); ok {
+								iff, idx = i2, 1
+							}
+						}
+					}
+				}
+				if iff == nil {
+					continue
+				}
+				nSF++
+				same := sx.Edge{From: iff.Block(), Idx: idx}
+				for _, ret := range sx.Returns(cp) {
+					for _, rc := range retCases(ret, len(ret.Results)-1) {
+						if sx.IsNilConst(rc.Val) && (reachFromBlock(cp, same.To(), rc.At) || (len(same.To().Instrs) > 0 && same.To().Instrs[len(same.To().Instrs)-1] == rc.At)) {
+							okRefuse = false
+						}
+					}
+				}
+			}
+		})
+		if nSF > 0 {
+			r.Check(okRefuse, "C18-R3", "CopyFile: same file is reported as an error", p.FuncPos(cp), "no nil-error return is reachable from the edge where os.SameFile returned true", "on the edge where source and destination are the same file CopyFile can return a nil error without having copied anything: MoveFile's fallback then removes the source — the content is gone when the destination is a link to it on another file system")
+		}
+	}
+	// a deferred function must not overwrite the error result (`defer func() { err = dest.Close() }()` turns a failed
+	// copy into success); it may fill it in only where it is still nil
+	{
+		var bad []string
+		errCells := map[*ssa.Alloc]bool{}
+		for _, ret := range sx.Returns(cp) {
+			if len(ret.Results) == 0 {
+				continue
+			}
+			if ld, ok := ret.Results[len(ret.Results)-1].(*ssa.UnOp); ok && ld.Op == token.MUL {
+				if a, ok := ld.X.(*ssa.Alloc); ok {
+					errCells[a] = true
+				}
+			}
+		}
+		sx.Instrs(cp, func(in ssa.Instruction) {
+			d, ok := in.(*ssa.Defer)
+			if !ok {
+				return
+			}
+			mc, ok := d.Call.Value.(*ssa.MakeClosure)
+			if !ok {
+				return
+			}
+			cl := mc.Fn.(*ssa.Function)
+			for i, b := range mc.Bindings {
+				a, isA := b.(*ssa.Alloc)
+				if !isA || !errCells[a] {
+					continue
+				}
+				fv := cl.FreeVars[i]
+				// stores through the captured result
+				nilEdges := map[sx.Edge]bool{}
+				sx.Instrs(cl, func(i2 ssa.Instruction) {
+					if ld, ok := i2.(*ssa.UnOp); ok && ld.Op == token.MUL && ld.X == ssa.Value(fv) {
+						ne, _ := sx.NilEdges(ld)
+						for e := range ne {
+							nilEdges[e] = true
+						}
+					}
+				})
+				sx.Instrs(cl, func(i2 ssa.Instruction) {
+					st, ok := i2.(*ssa.Store)
+					if !ok || st.Addr != ssa.Value(fv) {
+						return
+					}
+					if len(nilEdges) == 0 || !sx.MustPass(cl, nil, st, sx.Cut{Edges: nilEdges}) {
+						bad = append(bad, "deferred function at "+p.Pos(d.Pos())+" assigns the error result at "+p.Pos(st.Pos())+" without testing that it is still nil")
+					}
+				})
+			}
+		})
+		r.Check(len(bad) == 0, "C18-R3", "CopyFile: no deferred function overwrites the error result", p.FuncPos(cp), "deferred clean-up leaves a non-nil error alone", strings.Join(bad, "; ")+": the error of the copy step is replaced (by Close's nil): a failed copy is reported as success and MoveFile removes the source")
 	}
 	// open errors return before any write
 	sx.Instrs(cp, func(in ssa.Instruction) {
